@@ -541,3 +541,30 @@ fn kf_xls_filepass_xor_obfuscation_is_password() {
     let r = Xls::new(Cursor::new(cfb_with_workbook(&stream)));
     assert!(matches!(r, Err(calamine::XlsError::Password)), "any FILEPASS record must be reported as XlsError::Password, got {:?}", r.err());
 }
+
+// C10 / R-FMTPREC (xlsb)
+
+#[test]
+fn kf_xlsb_declared_format_overrides_builtin_id() {
+    // styles.bin re-declares id 14 (a built-in date id) as the plain number format "0.0000000000"
+    let src = fixture("date.xlsb");
+    let mut recs = xlsb_records(&member(&src, "xl/styles.bin"));
+    let f = recs.iter().position(|r| r.0 == 0x2C).unwrap();
+    recs[f].1[0..2].copy_from_slice(&14u16.to_le_bytes());
+    let code: Vec<u16> = "0.0000000000".encode_utf16().collect();
+    assert_eq!(code.len(), 12);
+    for (i, c) in code.iter().enumerate() {
+        recs[f].1[6 + 2 * i..8 + 2 * i].copy_from_slice(&c.to_le_bytes());
+    }
+    let begin = recs.iter().position(|r| r.0 == 0x269).unwrap();
+    recs[begin + 2].1[2..4].copy_from_slice(&14u16.to_le_bytes()); // cell XF #1 -> ifmt 14
+    let bytes = rezip(&src, &[("xl/styles.bin", xlsb_bytes(&recs))]);
+    let mut wb: Xlsb<_> = Xlsb::new(Cursor::new(bytes)).unwrap();
+    let name = wb.sheet_names()[0].clone();
+    let r = wb.worksheet_range(&name).unwrap();
+    assert!(
+        matches!(r.get_value((0, 0)), Some(Data::Float(_))),
+        "the style refers to the declared format \"0.0000000000\", not a date: got {:?}",
+        r.get_value((0, 0))
+    );
+}
